@@ -31,6 +31,8 @@ type Document struct {
 	parts map[string][]byte
 	// 图片ID计数器，确保每个图片都有唯一的ID
 	nextImageID int
+	// 打开的文档中 styles.xml 关系原有的ID（保存时原样写回；为空表示使用 rId1）
+	stylesRelID string
 }
 
 // Body 表示文档主体
@@ -2942,7 +2944,7 @@ func (d *Document) serializeDocumentRelationships() {
 	// 获取已存在的关系，从索引1开始（保留给styles.xml）
 	relationships := []Relationship{
 		{
-			ID:     "rId1",
+			ID:     d.stylesRelationshipID(),
 			Type:   "http://schemas.openxmlformats.org/officeDocument/2006/relationships/styles",
 			Target: "styles.xml",
 		},
@@ -2959,6 +2961,58 @@ func (d *Document) serializeDocumentRelationships() {
 
 	data, _ := xml.MarshalIndent(docRels, "", "  ")
 	d.parts["word/_rels/document.xml.rels"] = append([]byte(xml.Header), data...)
+}
+
+// hasDocumentRelID 判断文档级关系中是否已使用某个关系ID
+func (d *Document) hasDocumentRelID(id string) bool {
+	if d.documentRelationships == nil {
+		return false
+	}
+	for _, rel := range d.documentRelationships.Relationships {
+		if rel.ID == id {
+			return true
+		}
+	}
+	return false
+}
+
+// stylesRelationshipID 返回保存时 styles.xml 关系使用的ID：
+// 打开的文档保留其原有ID，否则使用 rId1；若该ID已被其他关系占用则选取一个未使用的ID。
+func (d *Document) stylesRelationshipID() string {
+	if d.stylesRelID != "" && !d.hasDocumentRelID(d.stylesRelID) {
+		return d.stylesRelID
+	}
+	if !d.hasDocumentRelID("rId1") {
+		return "rId1"
+	}
+	n := 2
+	if d.documentRelationships != nil {
+		n = len(d.documentRelationships.Relationships) + 2
+	}
+	for {
+		id := fmt.Sprintf("rId%d", n)
+		if !d.hasDocumentRelID(id) {
+			return id
+		}
+		n++
+	}
+}
+
+// nextDocumentRelID 生成一个未被任何文档级关系使用的关系ID。
+// 对于由本库创建的文档，结果与原来的 rId(len+2) 相同（rId1 保留给 styles.xml）；
+// 对于打开的文档，其已有关系的ID可以是任意的，因此必须跳过已占用的ID。
+func (d *Document) nextDocumentRelID() string {
+	n := 2
+	if d.documentRelationships != nil {
+		n = len(d.documentRelationships.Relationships) + 2
+	}
+	for {
+		id := fmt.Sprintf("rId%d", n)
+		if id != d.stylesRelID && !d.hasDocumentRelID(id) {
+			return id
+		}
+		n++
+	}
 }
 
 // serializeStyles 序列化样式
@@ -3104,6 +3158,9 @@ func (d *Document) parseDocumentRelationships() error {
 	for _, rel := range relationships.Relationships {
 		if rel.Type != "http://schemas.openxmlformats.org/officeDocument/2006/relationships/styles" {
 			filteredRels = append(filteredRels, rel)
+		} else if d.stylesRelID == "" {
+			// 记住样式关系原有的ID，保存时原样写回
+			d.stylesRelID = rel.ID
 		}
 	}
 
